@@ -30,8 +30,8 @@ Print Assumptions C18b_decided_record_frozen.
    that is not an event; a persist on an initialised conductor; an event that
      - does not address the record (the pointer of its (task, route) is another index), or
      - addresses an engine command (those always get a record of their own), or
-     - addresses it with a starting status while the task is staged again (a loop iteration or a
-       re-staged task: a NEW record is appended), or
+     - addresses it with a starting status while the task is staged again and that entry is not
+       flagged completed (a loop iteration or a re-staged task: a NEW record is appended), or
      - is not the internal retry event and finds the record without a retry left. *)
 Theorem C18b_decided_record_frozen_step : forall ev op c c' res i r,
   nth_error (sequence (c_ws c)) i = Some r -> decided r ->
@@ -59,7 +59,8 @@ Print Assumptions C18b_op_safe_unfold.
 Theorem C18b_safe_unfold : forall i r0 c t route evt,
   safe i r0 c t route evt <->
   (ws_task_idx (c_ws c) t route <> Some i \/ is_engine_command t = true \/
-   (c_init c = true /\ status_in (ev_status evt) STARTING_STATUSES = true /\ get_staged_task (c_ws c) t route <> None) \/
+   (c_init c = true /\ status_in (ev_status evt) STARTING_STATUSES = true /\
+   exists s, get_staged_task (c_ws c) t route = Some s /\ s_completed s = false) \/
    (is_retry_event evt = false /\ ~ retry_open r0)).
 Proof. exact safe_unfold. Qed.
 Print Assumptions C18b_safe_unfold.
